@@ -65,6 +65,11 @@ Inductive resp :=
 | RWaitIR (result : option (Z * Z)) (data : option (list msg))
 | RUnit.
 
+(* ghost history of the counters the barrier sums (Barrier.v): a send count increment, a receive count increment
+   (a handler finished), a snapshot contributed to a count reduction, the result of a count reduction stored in [cur]
+   (set_cur; the sentinel (3,4) at the start of a barrier is recorded too) *)
+Inductive gev := GSend | GRecv | GSnap (rc sc : Z) | GRes (v : Z * Z).
+
 (* ---- state --------------------------------------------------------------- *)
 Record st := {
   bufs : list (list msg);     (* m_vec_send_buffers, indexed by rank *)
@@ -88,7 +93,10 @@ Record st := {
   red_done : bool;
   oracle : list resp;
   log : list event;           (* newest first *)
-  enq : list (Z * msg)        (* ghost: every (rank, message) ever appended to a send buffer, newest first (RankNoErr.v: conservation) *)
+  enq : list (Z * msg);       (* ghost: every (rank, message) ever appended to a send buffer, newest first (RankConserve.v) *)
+  hist : list gev             (* ghost: history of the send / receive counters and of the snapshots contributed to count
+                                 reductions and of their results, newest first; maintained by set_scnt, set_rcnt (used only to
+                                 increment), emit (EIallreduce _ _) and set_cur (RankCount.v, RankBarrier.v, Global.v) *)
 }.
 
 Inductive res := Ok (s : st) | Blocked (s : st) | Err (what : nat) (s : st) | OutOfFuel.
@@ -100,7 +108,8 @@ Definition emit (e : event) (s : st) : st :=
   {| bufs := bufs s; sbb := sbb s; dq := dq s; sendq := sendq s; pend := pend s; cbs := cbs s; intr := intr s; inprq := inprq s;
      rcnt := rcnt s; scnt := scnt s; ictr := ictr s; ret := ret s; depth := depth s; masks := masks s; flags := flags s;
      shared := shared s; nbar := nbar s; inmain := inmain s; cur := cur s; prev := prev s; red_done := red_done s;
-     oracle := oracle s; log := e :: log s; enq := enq s |}.
+     oracle := oracle s; log := e :: log s; enq := enq s;
+     hist := match e with EIallreduce rc sc => GSnap rc sc :: hist s | _ => hist s end |}.
 
 Definition upd {A} (l : list A) (i : nat) (x : A) : list A :=
   firstn i l ++ match skipn i l with [] => [] | _ :: t => x :: t end.
@@ -108,29 +117,29 @@ Definition upd {A} (l : list A) (i : nat) (x : A) : list A :=
 Definition buf_at (s : st) (d : Z) : list msg := nth (Z.to_nat d) (bufs s) [].
 
 (* field setters (record update spelled out once) *)
-Definition set_bufs v s := {| bufs := v; sbb := sbb s; dq := dq s; sendq := sendq s; pend := pend s; cbs := cbs s; intr := intr s; inprq := inprq s; rcnt := rcnt s; scnt := scnt s; ictr := ictr s; ret := ret s; depth := depth s; masks := masks s; flags := flags s; shared := shared s; nbar := nbar s; inmain := inmain s; cur := cur s; prev := prev s; red_done := red_done s; oracle := oracle s; log := log s; enq := enq s |}.
-Definition set_sbb v s := {| bufs := bufs s; sbb := v; dq := dq s; sendq := sendq s; pend := pend s; cbs := cbs s; intr := intr s; inprq := inprq s; rcnt := rcnt s; scnt := scnt s; ictr := ictr s; ret := ret s; depth := depth s; masks := masks s; flags := flags s; shared := shared s; nbar := nbar s; inmain := inmain s; cur := cur s; prev := prev s; red_done := red_done s; oracle := oracle s; log := log s; enq := enq s |}.
-Definition set_dq v s := {| bufs := bufs s; sbb := sbb s; dq := v; sendq := sendq s; pend := pend s; cbs := cbs s; intr := intr s; inprq := inprq s; rcnt := rcnt s; scnt := scnt s; ictr := ictr s; ret := ret s; depth := depth s; masks := masks s; flags := flags s; shared := shared s; nbar := nbar s; inmain := inmain s; cur := cur s; prev := prev s; red_done := red_done s; oracle := oracle s; log := log s; enq := enq s |}.
-Definition set_sendq v s := {| bufs := bufs s; sbb := sbb s; dq := dq s; sendq := v; pend := pend s; cbs := cbs s; intr := intr s; inprq := inprq s; rcnt := rcnt s; scnt := scnt s; ictr := ictr s; ret := ret s; depth := depth s; masks := masks s; flags := flags s; shared := shared s; nbar := nbar s; inmain := inmain s; cur := cur s; prev := prev s; red_done := red_done s; oracle := oracle s; log := log s; enq := enq s |}.
-Definition set_pend v s := {| bufs := bufs s; sbb := sbb s; dq := dq s; sendq := sendq s; pend := v; cbs := cbs s; intr := intr s; inprq := inprq s; rcnt := rcnt s; scnt := scnt s; ictr := ictr s; ret := ret s; depth := depth s; masks := masks s; flags := flags s; shared := shared s; nbar := nbar s; inmain := inmain s; cur := cur s; prev := prev s; red_done := red_done s; oracle := oracle s; log := log s; enq := enq s |}.
-Definition set_cbs v s := {| bufs := bufs s; sbb := sbb s; dq := dq s; sendq := sendq s; pend := pend s; cbs := v; intr := intr s; inprq := inprq s; rcnt := rcnt s; scnt := scnt s; ictr := ictr s; ret := ret s; depth := depth s; masks := masks s; flags := flags s; shared := shared s; nbar := nbar s; inmain := inmain s; cur := cur s; prev := prev s; red_done := red_done s; oracle := oracle s; log := log s; enq := enq s |}.
-Definition set_intr v s := {| bufs := bufs s; sbb := sbb s; dq := dq s; sendq := sendq s; pend := pend s; cbs := cbs s; intr := v; inprq := inprq s; rcnt := rcnt s; scnt := scnt s; ictr := ictr s; ret := ret s; depth := depth s; masks := masks s; flags := flags s; shared := shared s; nbar := nbar s; inmain := inmain s; cur := cur s; prev := prev s; red_done := red_done s; oracle := oracle s; log := log s; enq := enq s |}.
-Definition set_inprq v s := {| bufs := bufs s; sbb := sbb s; dq := dq s; sendq := sendq s; pend := pend s; cbs := cbs s; intr := intr s; inprq := v; rcnt := rcnt s; scnt := scnt s; ictr := ictr s; ret := ret s; depth := depth s; masks := masks s; flags := flags s; shared := shared s; nbar := nbar s; inmain := inmain s; cur := cur s; prev := prev s; red_done := red_done s; oracle := oracle s; log := log s; enq := enq s |}.
-Definition set_rcnt v s := {| bufs := bufs s; sbb := sbb s; dq := dq s; sendq := sendq s; pend := pend s; cbs := cbs s; intr := intr s; inprq := inprq s; rcnt := v; scnt := scnt s; ictr := ictr s; ret := ret s; depth := depth s; masks := masks s; flags := flags s; shared := shared s; nbar := nbar s; inmain := inmain s; cur := cur s; prev := prev s; red_done := red_done s; oracle := oracle s; log := log s; enq := enq s |}.
-Definition set_scnt v s := {| bufs := bufs s; sbb := sbb s; dq := dq s; sendq := sendq s; pend := pend s; cbs := cbs s; intr := intr s; inprq := inprq s; rcnt := rcnt s; scnt := v; ictr := ictr s; ret := ret s; depth := depth s; masks := masks s; flags := flags s; shared := shared s; nbar := nbar s; inmain := inmain s; cur := cur s; prev := prev s; red_done := red_done s; oracle := oracle s; log := log s; enq := enq s |}.
-Definition set_ictr v s := {| bufs := bufs s; sbb := sbb s; dq := dq s; sendq := sendq s; pend := pend s; cbs := cbs s; intr := intr s; inprq := inprq s; rcnt := rcnt s; scnt := scnt s; ictr := v; ret := ret s; depth := depth s; masks := masks s; flags := flags s; shared := shared s; nbar := nbar s; inmain := inmain s; cur := cur s; prev := prev s; red_done := red_done s; oracle := oracle s; log := log s; enq := enq s |}.
-Definition set_ret v s := {| bufs := bufs s; sbb := sbb s; dq := dq s; sendq := sendq s; pend := pend s; cbs := cbs s; intr := intr s; inprq := inprq s; rcnt := rcnt s; scnt := scnt s; ictr := ictr s; ret := v; depth := depth s; masks := masks s; flags := flags s; shared := shared s; nbar := nbar s; inmain := inmain s; cur := cur s; prev := prev s; red_done := red_done s; oracle := oracle s; log := log s; enq := enq s |}.
-Definition set_depth v s := {| bufs := bufs s; sbb := sbb s; dq := dq s; sendq := sendq s; pend := pend s; cbs := cbs s; intr := intr s; inprq := inprq s; rcnt := rcnt s; scnt := scnt s; ictr := ictr s; ret := ret s; depth := v; masks := masks s; flags := flags s; shared := shared s; nbar := nbar s; inmain := inmain s; cur := cur s; prev := prev s; red_done := red_done s; oracle := oracle s; log := log s; enq := enq s |}.
-Definition set_masks v s := {| bufs := bufs s; sbb := sbb s; dq := dq s; sendq := sendq s; pend := pend s; cbs := cbs s; intr := intr s; inprq := inprq s; rcnt := rcnt s; scnt := scnt s; ictr := ictr s; ret := ret s; depth := depth s; masks := v; flags := flags s; shared := shared s; nbar := nbar s; inmain := inmain s; cur := cur s; prev := prev s; red_done := red_done s; oracle := oracle s; log := log s; enq := enq s |}.
-Definition set_flags v s := {| bufs := bufs s; sbb := sbb s; dq := dq s; sendq := sendq s; pend := pend s; cbs := cbs s; intr := intr s; inprq := inprq s; rcnt := rcnt s; scnt := scnt s; ictr := ictr s; ret := ret s; depth := depth s; masks := masks s; flags := v; shared := shared s; nbar := nbar s; inmain := inmain s; cur := cur s; prev := prev s; red_done := red_done s; oracle := oracle s; log := log s; enq := enq s |}.
-Definition set_shared v s := {| bufs := bufs s; sbb := sbb s; dq := dq s; sendq := sendq s; pend := pend s; cbs := cbs s; intr := intr s; inprq := inprq s; rcnt := rcnt s; scnt := scnt s; ictr := ictr s; ret := ret s; depth := depth s; masks := masks s; flags := flags s; shared := v; nbar := nbar s; inmain := inmain s; cur := cur s; prev := prev s; red_done := red_done s; oracle := oracle s; log := log s; enq := enq s |}.
-Definition set_nbar v s := {| bufs := bufs s; sbb := sbb s; dq := dq s; sendq := sendq s; pend := pend s; cbs := cbs s; intr := intr s; inprq := inprq s; rcnt := rcnt s; scnt := scnt s; ictr := ictr s; ret := ret s; depth := depth s; masks := masks s; flags := flags s; shared := shared s; nbar := v; inmain := inmain s; cur := cur s; prev := prev s; red_done := red_done s; oracle := oracle s; log := log s; enq := enq s |}.
-Definition set_inmain v s := {| bufs := bufs s; sbb := sbb s; dq := dq s; sendq := sendq s; pend := pend s; cbs := cbs s; intr := intr s; inprq := inprq s; rcnt := rcnt s; scnt := scnt s; ictr := ictr s; ret := ret s; depth := depth s; masks := masks s; flags := flags s; shared := shared s; nbar := nbar s; inmain := v; cur := cur s; prev := prev s; red_done := red_done s; oracle := oracle s; log := log s; enq := enq s |}.
-Definition set_cur v s := {| bufs := bufs s; sbb := sbb s; dq := dq s; sendq := sendq s; pend := pend s; cbs := cbs s; intr := intr s; inprq := inprq s; rcnt := rcnt s; scnt := scnt s; ictr := ictr s; ret := ret s; depth := depth s; masks := masks s; flags := flags s; shared := shared s; nbar := nbar s; inmain := inmain s; cur := v; prev := prev s; red_done := red_done s; oracle := oracle s; log := log s; enq := enq s |}.
-Definition set_prev v s := {| bufs := bufs s; sbb := sbb s; dq := dq s; sendq := sendq s; pend := pend s; cbs := cbs s; intr := intr s; inprq := inprq s; rcnt := rcnt s; scnt := scnt s; ictr := ictr s; ret := ret s; depth := depth s; masks := masks s; flags := flags s; shared := shared s; nbar := nbar s; inmain := inmain s; cur := cur s; prev := v; red_done := red_done s; oracle := oracle s; log := log s; enq := enq s |}.
-Definition set_red_done v s := {| bufs := bufs s; sbb := sbb s; dq := dq s; sendq := sendq s; pend := pend s; cbs := cbs s; intr := intr s; inprq := inprq s; rcnt := rcnt s; scnt := scnt s; ictr := ictr s; ret := ret s; depth := depth s; masks := masks s; flags := flags s; shared := shared s; nbar := nbar s; inmain := inmain s; cur := cur s; prev := prev s; red_done := v; oracle := oracle s; log := log s; enq := enq s |}.
-Definition set_oracle v s := {| bufs := bufs s; sbb := sbb s; dq := dq s; sendq := sendq s; pend := pend s; cbs := cbs s; intr := intr s; inprq := inprq s; rcnt := rcnt s; scnt := scnt s; ictr := ictr s; ret := ret s; depth := depth s; masks := masks s; flags := flags s; shared := shared s; nbar := nbar s; inmain := inmain s; cur := cur s; prev := prev s; red_done := red_done s; oracle := v; log := log s; enq := enq s |}.
-Definition set_enq v s := {| bufs := bufs s; sbb := sbb s; dq := dq s; sendq := sendq s; pend := pend s; cbs := cbs s; intr := intr s; inprq := inprq s; rcnt := rcnt s; scnt := scnt s; ictr := ictr s; ret := ret s; depth := depth s; masks := masks s; flags := flags s; shared := shared s; nbar := nbar s; inmain := inmain s; cur := cur s; prev := prev s; red_done := red_done s; oracle := oracle s; log := log s; enq := v |}.
+Definition set_bufs v s := {| bufs := v; sbb := sbb s; dq := dq s; sendq := sendq s; pend := pend s; cbs := cbs s; intr := intr s; inprq := inprq s; rcnt := rcnt s; scnt := scnt s; ictr := ictr s; ret := ret s; depth := depth s; masks := masks s; flags := flags s; shared := shared s; nbar := nbar s; inmain := inmain s; cur := cur s; prev := prev s; red_done := red_done s; oracle := oracle s; log := log s; enq := enq s; hist := hist s |}.
+Definition set_sbb v s := {| bufs := bufs s; sbb := v; dq := dq s; sendq := sendq s; pend := pend s; cbs := cbs s; intr := intr s; inprq := inprq s; rcnt := rcnt s; scnt := scnt s; ictr := ictr s; ret := ret s; depth := depth s; masks := masks s; flags := flags s; shared := shared s; nbar := nbar s; inmain := inmain s; cur := cur s; prev := prev s; red_done := red_done s; oracle := oracle s; log := log s; enq := enq s; hist := hist s |}.
+Definition set_dq v s := {| bufs := bufs s; sbb := sbb s; dq := v; sendq := sendq s; pend := pend s; cbs := cbs s; intr := intr s; inprq := inprq s; rcnt := rcnt s; scnt := scnt s; ictr := ictr s; ret := ret s; depth := depth s; masks := masks s; flags := flags s; shared := shared s; nbar := nbar s; inmain := inmain s; cur := cur s; prev := prev s; red_done := red_done s; oracle := oracle s; log := log s; enq := enq s; hist := hist s |}.
+Definition set_sendq v s := {| bufs := bufs s; sbb := sbb s; dq := dq s; sendq := v; pend := pend s; cbs := cbs s; intr := intr s; inprq := inprq s; rcnt := rcnt s; scnt := scnt s; ictr := ictr s; ret := ret s; depth := depth s; masks := masks s; flags := flags s; shared := shared s; nbar := nbar s; inmain := inmain s; cur := cur s; prev := prev s; red_done := red_done s; oracle := oracle s; log := log s; enq := enq s; hist := hist s |}.
+Definition set_pend v s := {| bufs := bufs s; sbb := sbb s; dq := dq s; sendq := sendq s; pend := v; cbs := cbs s; intr := intr s; inprq := inprq s; rcnt := rcnt s; scnt := scnt s; ictr := ictr s; ret := ret s; depth := depth s; masks := masks s; flags := flags s; shared := shared s; nbar := nbar s; inmain := inmain s; cur := cur s; prev := prev s; red_done := red_done s; oracle := oracle s; log := log s; enq := enq s; hist := hist s |}.
+Definition set_cbs v s := {| bufs := bufs s; sbb := sbb s; dq := dq s; sendq := sendq s; pend := pend s; cbs := v; intr := intr s; inprq := inprq s; rcnt := rcnt s; scnt := scnt s; ictr := ictr s; ret := ret s; depth := depth s; masks := masks s; flags := flags s; shared := shared s; nbar := nbar s; inmain := inmain s; cur := cur s; prev := prev s; red_done := red_done s; oracle := oracle s; log := log s; enq := enq s; hist := hist s |}.
+Definition set_intr v s := {| bufs := bufs s; sbb := sbb s; dq := dq s; sendq := sendq s; pend := pend s; cbs := cbs s; intr := v; inprq := inprq s; rcnt := rcnt s; scnt := scnt s; ictr := ictr s; ret := ret s; depth := depth s; masks := masks s; flags := flags s; shared := shared s; nbar := nbar s; inmain := inmain s; cur := cur s; prev := prev s; red_done := red_done s; oracle := oracle s; log := log s; enq := enq s; hist := hist s |}.
+Definition set_inprq v s := {| bufs := bufs s; sbb := sbb s; dq := dq s; sendq := sendq s; pend := pend s; cbs := cbs s; intr := intr s; inprq := v; rcnt := rcnt s; scnt := scnt s; ictr := ictr s; ret := ret s; depth := depth s; masks := masks s; flags := flags s; shared := shared s; nbar := nbar s; inmain := inmain s; cur := cur s; prev := prev s; red_done := red_done s; oracle := oracle s; log := log s; enq := enq s; hist := hist s |}.
+Definition set_rcnt v s := {| bufs := bufs s; sbb := sbb s; dq := dq s; sendq := sendq s; pend := pend s; cbs := cbs s; intr := intr s; inprq := inprq s; rcnt := v; scnt := scnt s; ictr := ictr s; ret := ret s; depth := depth s; masks := masks s; flags := flags s; shared := shared s; nbar := nbar s; inmain := inmain s; cur := cur s; prev := prev s; red_done := red_done s; oracle := oracle s; log := log s; enq := enq s; hist := GRecv :: hist s |}.
+Definition set_scnt v s := {| bufs := bufs s; sbb := sbb s; dq := dq s; sendq := sendq s; pend := pend s; cbs := cbs s; intr := intr s; inprq := inprq s; rcnt := rcnt s; scnt := v; ictr := ictr s; ret := ret s; depth := depth s; masks := masks s; flags := flags s; shared := shared s; nbar := nbar s; inmain := inmain s; cur := cur s; prev := prev s; red_done := red_done s; oracle := oracle s; log := log s; enq := enq s; hist := GSend :: hist s |}.
+Definition set_ictr v s := {| bufs := bufs s; sbb := sbb s; dq := dq s; sendq := sendq s; pend := pend s; cbs := cbs s; intr := intr s; inprq := inprq s; rcnt := rcnt s; scnt := scnt s; ictr := v; ret := ret s; depth := depth s; masks := masks s; flags := flags s; shared := shared s; nbar := nbar s; inmain := inmain s; cur := cur s; prev := prev s; red_done := red_done s; oracle := oracle s; log := log s; enq := enq s; hist := hist s |}.
+Definition set_ret v s := {| bufs := bufs s; sbb := sbb s; dq := dq s; sendq := sendq s; pend := pend s; cbs := cbs s; intr := intr s; inprq := inprq s; rcnt := rcnt s; scnt := scnt s; ictr := ictr s; ret := v; depth := depth s; masks := masks s; flags := flags s; shared := shared s; nbar := nbar s; inmain := inmain s; cur := cur s; prev := prev s; red_done := red_done s; oracle := oracle s; log := log s; enq := enq s; hist := hist s |}.
+Definition set_depth v s := {| bufs := bufs s; sbb := sbb s; dq := dq s; sendq := sendq s; pend := pend s; cbs := cbs s; intr := intr s; inprq := inprq s; rcnt := rcnt s; scnt := scnt s; ictr := ictr s; ret := ret s; depth := v; masks := masks s; flags := flags s; shared := shared s; nbar := nbar s; inmain := inmain s; cur := cur s; prev := prev s; red_done := red_done s; oracle := oracle s; log := log s; enq := enq s; hist := hist s |}.
+Definition set_masks v s := {| bufs := bufs s; sbb := sbb s; dq := dq s; sendq := sendq s; pend := pend s; cbs := cbs s; intr := intr s; inprq := inprq s; rcnt := rcnt s; scnt := scnt s; ictr := ictr s; ret := ret s; depth := depth s; masks := v; flags := flags s; shared := shared s; nbar := nbar s; inmain := inmain s; cur := cur s; prev := prev s; red_done := red_done s; oracle := oracle s; log := log s; enq := enq s; hist := hist s |}.
+Definition set_flags v s := {| bufs := bufs s; sbb := sbb s; dq := dq s; sendq := sendq s; pend := pend s; cbs := cbs s; intr := intr s; inprq := inprq s; rcnt := rcnt s; scnt := scnt s; ictr := ictr s; ret := ret s; depth := depth s; masks := masks s; flags := v; shared := shared s; nbar := nbar s; inmain := inmain s; cur := cur s; prev := prev s; red_done := red_done s; oracle := oracle s; log := log s; enq := enq s; hist := hist s |}.
+Definition set_shared v s := {| bufs := bufs s; sbb := sbb s; dq := dq s; sendq := sendq s; pend := pend s; cbs := cbs s; intr := intr s; inprq := inprq s; rcnt := rcnt s; scnt := scnt s; ictr := ictr s; ret := ret s; depth := depth s; masks := masks s; flags := flags s; shared := v; nbar := nbar s; inmain := inmain s; cur := cur s; prev := prev s; red_done := red_done s; oracle := oracle s; log := log s; enq := enq s; hist := hist s |}.
+Definition set_nbar v s := {| bufs := bufs s; sbb := sbb s; dq := dq s; sendq := sendq s; pend := pend s; cbs := cbs s; intr := intr s; inprq := inprq s; rcnt := rcnt s; scnt := scnt s; ictr := ictr s; ret := ret s; depth := depth s; masks := masks s; flags := flags s; shared := shared s; nbar := v; inmain := inmain s; cur := cur s; prev := prev s; red_done := red_done s; oracle := oracle s; log := log s; enq := enq s; hist := hist s |}.
+Definition set_inmain v s := {| bufs := bufs s; sbb := sbb s; dq := dq s; sendq := sendq s; pend := pend s; cbs := cbs s; intr := intr s; inprq := inprq s; rcnt := rcnt s; scnt := scnt s; ictr := ictr s; ret := ret s; depth := depth s; masks := masks s; flags := flags s; shared := shared s; nbar := nbar s; inmain := v; cur := cur s; prev := prev s; red_done := red_done s; oracle := oracle s; log := log s; enq := enq s; hist := hist s |}.
+Definition set_cur v s := {| bufs := bufs s; sbb := sbb s; dq := dq s; sendq := sendq s; pend := pend s; cbs := cbs s; intr := intr s; inprq := inprq s; rcnt := rcnt s; scnt := scnt s; ictr := ictr s; ret := ret s; depth := depth s; masks := masks s; flags := flags s; shared := shared s; nbar := nbar s; inmain := inmain s; cur := v; prev := prev s; red_done := red_done s; oracle := oracle s; log := log s; enq := enq s; hist := GRes v :: hist s |}.
+Definition set_prev v s := {| bufs := bufs s; sbb := sbb s; dq := dq s; sendq := sendq s; pend := pend s; cbs := cbs s; intr := intr s; inprq := inprq s; rcnt := rcnt s; scnt := scnt s; ictr := ictr s; ret := ret s; depth := depth s; masks := masks s; flags := flags s; shared := shared s; nbar := nbar s; inmain := inmain s; cur := cur s; prev := v; red_done := red_done s; oracle := oracle s; log := log s; enq := enq s; hist := hist s |}.
+Definition set_red_done v s := {| bufs := bufs s; sbb := sbb s; dq := dq s; sendq := sendq s; pend := pend s; cbs := cbs s; intr := intr s; inprq := inprq s; rcnt := rcnt s; scnt := scnt s; ictr := ictr s; ret := ret s; depth := depth s; masks := masks s; flags := flags s; shared := shared s; nbar := nbar s; inmain := inmain s; cur := cur s; prev := prev s; red_done := v; oracle := oracle s; log := log s; enq := enq s; hist := hist s |}.
+Definition set_oracle v s := {| bufs := bufs s; sbb := sbb s; dq := dq s; sendq := sendq s; pend := pend s; cbs := cbs s; intr := intr s; inprq := inprq s; rcnt := rcnt s; scnt := scnt s; ictr := ictr s; ret := ret s; depth := depth s; masks := masks s; flags := flags s; shared := shared s; nbar := nbar s; inmain := inmain s; cur := cur s; prev := prev s; red_done := red_done s; oracle := v; log := log s; enq := enq s; hist := hist s |}.
+Definition set_enq v s := {| bufs := bufs s; sbb := sbb s; dq := dq s; sendq := sendq s; pend := pend s; cbs := cbs s; intr := intr s; inprq := inprq s; rcnt := rcnt s; scnt := scnt s; ictr := ictr s; ret := ret s; depth := depth s; masks := masks s; flags := flags s; shared := shared s; nbar := nbar s; inmain := inmain s; cur := cur s; prev := prev s; red_done := red_done s; oracle := oracle s; log := log s; enq := v; hist := hist s |}.
 
 (* an MPI call: log it, pop the response *)
 Definition ask (e : event) (s : st) (k : resp -> st -> res) : res :=
@@ -385,7 +394,7 @@ Fixpoint run (fuel : nat) (c : cfg) (p : proc) (s : st) : res :=
 Definition init_st (nranks : nat) (orc : list resp) : st :=
   {| bufs := repeat [] nranks; sbb := 0; dq := []; sendq := []; pend := 0; cbs := []; intr := true; inprq := false;
      rcnt := 0; scnt := 0; ictr := 0; ret := false; depth := 0; masks := []; flags := []; shared := 1000; nbar := 0;
-     inmain := true; cur := (3, 4); prev := (1, 2); red_done := false; oracle := orc; log := []; enq := [] |}.
+     inmain := true; cur := (3, 4); prev := (1, 2); red_done := false; oracle := orc; log := []; enq := []; hist := [] |}.
 
 (* the whole life of the communicator after construction: the main program, then ~comm()'s barrier *)
 Definition run_rank (fuel : nat) (c : cfg) (nranks : nat) (main : list act) (orc : list resp) : res :=
